@@ -8,6 +8,7 @@ from __future__ import annotations
 
 import base64
 import hashlib
+import json
 import random
 from typing import Any, Optional
 
@@ -256,13 +257,21 @@ class HandGen:
                     if share:
                         self.taken = set(saved)
                     bavail, bconds = list(avail), list(conds)
+                    binits = []
+                    if rng.random() < 0.4:
+                        # an initializer OWNED BY THE BODY (renamed with the body's other names)
+                        bi = self.fresh()
+                        binits.append(NH.from_array(self.arr(), bi))
+                        bavail.append(bi)
+                        self.features.add("body-initializer")
                     bnodes = self.body(bavail, bconds, depth + 1, node_names, rng.randrange(1, 3))
-                    local = [v for v in bavail if v not in avail]
+                    local = [v for v in bavail if v not in avail and v not in [t.name for t in binits]]
                     res = rng.choice(local) if local and rng.random() < 0.8 else None
                     if res is None:
                         res = self.fresh()
                         bnodes.append(H.make_node("Identity", [rng.choice(bavail)], [res]))
-                    g = H.make_graph(bnodes, bname + "_g", [], [_vi(res, self.elem, None if rng.random() < 0.3 else self.shape)])
+                    g = H.make_graph(bnodes, bname + "_g", [], [_vi(res, self.elem, None if rng.random() < 0.3 else self.shape)],
+                                     initializer=binits)
                     branches.append(g)
                     all_taken |= self.taken
                 self.taken = all_taken
@@ -279,6 +288,12 @@ class HandGen:
                 it, ci, xi, co = self.fresh(), self.fresh(), self.fresh(), self.fresh()
                 nodes.append(H.make_node("Constant", [], [mname], value=NH.from_array(np.array(rng.randrange(1, 4), np.int64), mname)))
                 bavail, bconds = [xi] + list(avail), list(conds)
+                linits = []
+                if rng.random() < 0.4:
+                    li = self.fresh()
+                    linits.append(NH.from_array(self.arr(), li))
+                    bavail.append(li)
+                    self.features.add("body-initializer")
                 bnodes = [H.make_node("Identity", [ci], [co])]
                 bnodes += self.body(bavail, bconds, depth + 1, node_names, rng.randrange(1, 4))
                 local = [v for v in bavail if v not in avail and v != xi]
@@ -286,7 +301,7 @@ class HandGen:
                 bnodes.append(H.make_node(rng.choice(["Add", "Sub"]), [xi, rng.choice(local or bavail)], [xo]))
                 bg = H.make_graph(bnodes, "loop_body",
                                   [_vi(it, TP.INT64, []), _vi(ci, TP.BOOL, []), _vi(xi, self.elem, self.shape)],
-                                  [_vi(co, TP.BOOL, []), _vi(xo, self.elem, self.shape)])
+                                  [_vi(co, TP.BOOL, []), _vi(xo, self.elem, self.shape)], initializer=linits)
                 nodes.append(H.make_node("Loop", [mname, "", rng.choice(avail)], [out], name=self.node_name(out, node_names), body=bg))
                 avail.append(out)
                 self.features.add("loop-body-captures-outer")
@@ -384,6 +399,71 @@ class HandGen:
         return m, meta
 
 
+class TypeGen:
+    """Models whose DECLARED input / output types are the corner shapes of a tensor type: literal 0 dimensions
+    (anywhere, several), dim_param "" (the field set, the string empty), dimensions with neither field, symbolic
+    names, no shape field at all (unknown rank), rank 0. Elementwise operators only, so every value has the one
+    run-time shape; the declarations of the inputs and outputs vary independently where the run-time shape allows."""
+
+    RUNTIME = [[0, 3], [3, 0], [0], [0, 0], [1, 0, 2], [2, 3], [2], [1], [], [0, 1], [2, 0, 0]]
+
+    def __init__(self, rng: random.Random):
+        self.rng = rng
+        self.features: set[str] = set()
+
+    def declare(self, shape: list):
+        """A declaration the run-time shape satisfies: each dim literal / symbolic / "" / missing; or no shape."""
+        r = self.rng
+        out = []
+        for d in shape:
+            k = r.random()
+            if k < 0.55:
+                out.append(d)
+                if d == 0:
+                    self.features.add("decl:literal-0")
+            elif k < 0.7:
+                out.append(r.choice(["N", "M", "batch"]))
+            elif k < 0.85:
+                out.append("")
+                self.features.add("decl:dim_param-empty")
+            else:
+                out.append(None)
+                self.features.add("decl:dim-missing-fields")
+        return out
+
+    def model(self) -> tuple[onnx.ModelProto, dict]:
+        r = self.rng
+        shape = list(r.choice(self.RUNTIME))
+        if 0 in shape:
+            self.features.add("zero-size")
+        n_in = r.randrange(1, 4)
+        ins = [f"i{j}" for j in range(n_in)]
+        inputs = [_vi(n, TP.FLOAT, self.declare(shape)) for n in ins]
+        inits = []
+        if n_in > 1 and r.random() < 0.3:
+            inits.append(NH.from_array(np.full(shape, 1.5, np.float32), ins[-1]))
+            self.features.add("default-valued-input")
+        avail, nodes = list(ins), []
+        for j in range(r.randrange(1, 4)):
+            out = f"t{j}"
+            if r.random() < 0.5:
+                nodes.append(H.make_node(r.choice(["Abs", "Neg", "Relu"]), [r.choice(avail)], [out]))
+            else:
+                nodes.append(H.make_node(r.choice(["Add", "Sub", "Mul"]), [r.choice(avail), r.choice(avail)], [out]))
+            avail.append(out)
+        outs = [avail[-1]] + ([r.choice(avail)] if r.random() < 0.4 else [])
+        outs = list(dict.fromkeys(outs))
+        for o in outs:
+            if o in ins:
+                self.features.add("output-is-input")
+        outputs = [_vi(o, TP.FLOAT, self.declare(shape)) for o in outs]
+        g = H.make_graph(nodes, "g", inputs, outputs, initializer=inits, doc_string="runtime-shape:" + json.dumps(shape))
+        opset = r.choice([13, 17, 17, 19, 21])
+        m = H.make_model(g, opset_imports=[H.make_operatorsetid("", opset)], ir_version=8)
+        self.features.add("declared-types")
+        return m, {"features": sorted(self.features), "runnable": True, "opset": opset, "kind": "types", "runtime_shape": shape}
+
+
 def add_local_function(m: onnx.ModelProto) -> onnx.ModelProto:
     m2 = onnx.ModelProto()
     m2.CopyFrom(m)
@@ -444,10 +524,22 @@ def spox_program(rng: random.Random, library: list[onnx.ModelProto], version: Op
             feats.add("subgraph-captures-outer")
             a, b = rng.choice(vals), rng.choice(vals)
             u = rng.choice(["abs", "neg"])
+            how = rng.choice(["const", "initializer-inside", "initializer-outside-used-inside"])
+            w_out = initializer(np.array([rng.randrange(1, 4), 0.5], np.float32)) if how == "initializer-outside-used-inside" else None
+            if how != "const":
+                feats.add("body-initializer")  # spox puts an initializer used only in a body into the body's graph
+
+            def factor():
+                if how == "const":
+                    return op.const(np.array([2.0, 2.0], np.float32))
+                if how == "initializer-inside":
+                    return initializer(np.array([2.0, 3.0], np.float32))
+                return w_out
+
             (r,) = op.if_(
                 cond,
                 then_branch=lambda: [getattr(op, u)(op.add(a, b))],
-                else_branch=lambda: [op.mul(a, op.const(np.array([2.0, 2.0], np.float32)))],
+                else_branch=lambda: [op.mul(a, factor())],
             )
             return r
         if k < 0.95 and library:
